@@ -13,7 +13,7 @@ StagesOf(x) == IF x.kind = "staged" THEN [k \in 1..Len(x.stages) |-> [d |-> x.st
 HeaderOK(x) == x.panicked = FALSE /\ x.dur = St!Total(StagesOf(x))
 
 Init == /\ tr \in 1..Len(T) /\ i = 0 /\ ok = HeaderOK(T[tr])
-        /\ stages = StagesOf(T[tr]) /\ cur = 1 /\ t = 0 /\ last = -1 /\ lastStage = 0
+        /\ stages = StagesOf(T[tr]) /\ cur = 1 /\ t = 0 /\ last = St!NONE /\ lastStage = 0
 Next == /\ i < Len(T[tr].ev)
         /\ LET off == T[tr].ev[i + 1][1]  r == T[tr].ev[i + 1][2] IN
              /\ i' = i + 1
